@@ -232,17 +232,76 @@ def build_template(root: pathlib.Path, projects: typing.Sequence[str], releases:
     return out
 
 
-def make_request(rid: int, nrows: int, vals: typing.Sequence[int], accept: str = 'application/json',
-                 content: str = 'application/json', drop_column: typing.Optional[str] = None,
-                 garbage: bool = False, swapped: bool = False) -> layout.Request:
+def make_body(rid: int, nrows: int, vals: typing.Sequence[int], drop_column: typing.Optional[str] = None,
+              garbage: bool = False, swapped: bool = False) -> bytes:
     rows = [{'key': rid * 1000 + j, 'val': vals[j]} for j in range(nrows)]
     if swapped:  # same fields, other order: the entry must still reach the pipeline in the query's schema
         rows = [{'val': r['val'], 'key': r['key']} for r in rows]
     if drop_column:
         for row in rows:
             row.pop(drop_column)
-    data = b'\xff\xfe{not json' if garbage else json.dumps(rows).encode()
+    return b'\xff\xfe{not json' if garbage else json.dumps(rows).encode()
+
+
+def make_request(rid: int, nrows: int, vals: typing.Sequence[int], accept: str = 'application/json',
+                 content: str = 'application/json', drop_column: typing.Optional[str] = None,
+                 garbage: bool = False, swapped: bool = False) -> layout.Request:
+    data = make_body(rid, nrows, vals, drop_column, garbage, swapped)
     return layout.Request(data, layout.Encoding.parse(content)[0], accept=layout.Encoding.parse(accept))
+
+
+# ------------------------------------------------------------------------------------------------
+# simulated HTTP client of the REST gateway: speaks ASGI to the Starlette application the real
+# forml.provider.gateway.rest.Gateway builds (its `server=` argument is the seam - in production it is uvicorn.run)
+# ------------------------------------------------------------------------------------------------
+STATUS_EXC = {415: 'Unsupported', 404: 'MissingError', 400: 'InvalidError', 500: 'FailedError'}
+
+
+async def http_post(app, path: str, body: bytes, headers: typing.Sequence[tuple[str, str]], cuts: typing.Sequence[int] = (),
+                    disconnect: bool = False, client: int = 0, pace: typing.Optional[typing.Callable] = None) -> dict:
+    """One HTTP exchange. The body arrives in pieces (cut positions); with ``disconnect`` the client goes away
+    before the last piece. Returns {'status', 'headers', 'body', 'starts', 'raised'}."""
+    import asyncio  # pylint: disable=import-outside-toplevel
+
+    bounds = [0, *sorted(c for c in cuts if 0 < c < len(body)), len(body)]
+    parts = [body[a:b] for a, b in zip(bounds, bounds[1:])] or [b'']
+    if disconnect:
+        parts = parts[:-1] if len(parts) > 1 else [parts[0][:len(parts[0]) // 2]]
+    done = asyncio.Event()
+    out = {'status': None, 'headers': {}, 'body': b'', 'starts': 0, 'completions': 0, 'raised': None}
+    scope = {'type': 'http', 'asgi': {'version': '3.0', 'spec_version': '2.3'}, 'http_version': '1.1', 'method': 'POST',
+             'scheme': 'http', 'path': path, 'raw_path': path.encode(), 'root_path': '', 'query_string': b'',
+             'headers': [(k.lower().encode('latin-1'), v.encode('latin-1')) for k, v in headers],
+             'server': ('sim', 80), 'client': ('client', client)}
+
+    async def receive():
+        if parts:
+            if pace is not None:
+                await pace()
+            chunk = parts.pop(0)
+            return {'type': 'http.request', 'body': chunk, 'more_body': bool(parts) or disconnect}
+        if not disconnect:
+            await done.wait()
+        return {'type': 'http.disconnect'}
+
+    async def send(message):
+        if message['type'] == 'http.response.start':
+            out['starts'] += 1
+            out['status'] = message['status']
+            out['headers'] = {k.decode('latin-1').lower(): v.decode('latin-1') for k, v in message.get('headers', [])}
+        elif message['type'] == 'http.response.body':
+            out['body'] += message.get('body', b'')
+            if not message.get('more_body'):
+                out['completions'] += 1
+                done.set()
+
+    try:
+        await app(scope, receive, send)
+    except asyncio.CancelledError:
+        raise
+    except Exception as err:  # pylint: disable=broad-except
+        out['raised'] = err
+    return out
 
 
 def expected_rows(rid: int, nrows: int, vals: typing.Sequence[int], state: int, bias: int) -> list[int]:
